@@ -222,6 +222,120 @@ theorem old_sha224_length_witness :
       ∧ fileDigestNew 11 (List.replicate 56 48) = .ok (11, List.replicate 56 48) := by
   decide
 
+/-! ### accessors composed of getters: `get_installed_size`, `get_payload_compressor`, `is_source_package` -/
+
+/-- `get_installed_size`: when the first RPMTAG_LONGSIZE entry is a non-empty INT64 array the result is its first element;
+in EVERY other case (tag absent, other type, empty array) the result is exactly what the 32-bit RPMTAG_SIZE getter gives,
+value or error -/
+theorem installed_size_spec (h : Header) :
+    (∀ v, getU64 h IndexTag.RPMTAG_LONGSIZE = .ok v → getInstalledSize h = .ok v)
+    ∧ ((∀ v, getU64 h IndexTag.RPMTAG_LONGSIZE ≠ .ok v) → getInstalledSize h = getU32 h IndexTag.RPMTAG_SIZE) := by
+  constructor
+  · intro v hv; simp only [getInstalledSize, hv]
+  · intro hn
+    unfold getInstalledSize
+    split
+    · rename_i v hv; exact absurd hv (hn v)
+    · rfl
+
+/-- … and the value it returns for a parsed header is stored under one of the two tags: the first LONGSIZE entry's first
+64-bit integer, or (only if that getter fails) the first SIZE entry's first 32-bit integer -/
+theorem installed_size_is_stored {bs h rest v} (hp : parseHeader bs = .ok (h, rest)) (hg : getInstalledSize h = .ok v) :
+    ∃ e, Stores h.store e.off e.cnt e.data ∧
+      ((h.entries.find? (fun e => e.tag == IndexTag.RPMTAG_LONGSIZE) = some e ∧ e.data.asU64 = some v) ∨
+       ((∀ w, getU64 h IndexTag.RPMTAG_LONGSIZE ≠ .ok w) ∧
+        h.entries.find? (fun e => e.tag == IndexTag.RPMTAG_SIZE) = some e ∧ e.data.asU32 = some v)) := by
+  by_cases hex : ∃ w, getU64 h IndexTag.RPMTAG_LONGSIZE = .ok w
+  · obtain ⟨w, h64⟩ := hex
+    have := (installed_size_spec h).1 w h64
+    rw [hg] at this
+    cases this
+    obtain ⟨e, hf, _, hpj, hs⟩ := getter_value_is_stored hp h64
+    exact ⟨e, hs, .inl ⟨hf, hpj⟩⟩
+  · have hn : ∀ w, getU64 h IndexTag.RPMTAG_LONGSIZE ≠ .ok w := fun w hw => hex ⟨w, hw⟩
+    have h32 := (installed_size_spec h).2 hn
+    rw [hg] at h32
+    obtain ⟨e, hf, _, hpj, hs⟩ := getter_value_is_stored hp h32.symm
+    exact ⟨e, hs, .inr ⟨hn, hf, hpj⟩⟩
+
+theorem lookup_some_mem {α β} [BEq α] [LawfulBEq α] {l : List (α × β)} {k : α} {v : β}
+    (h : l.lookup k = some v) : (k, v) ∈ l := by
+  induction l with
+  | nil => cases h
+  | cons p r ih =>
+    obtain ⟨a, b⟩ := p
+    simp only [List.lookup] at h
+    split at h
+    · rename_i he
+      have : k = a := by simpa using he
+      cases h; subst this; exact List.mem_cons_self
+    · exact List.mem_cons_of_mem _ (ih h)
+
+theorem lookup_none_iff {α β} [BEq α] [LawfulBEq α] {l : List (α × β)} {k : α} :
+    l.lookup k = none ↔ k ∉ l.map (·.1) := by
+  induction l with
+  | nil => simp [List.lookup]
+  | cons p r ih =>
+    obtain ⟨a, b⟩ := p
+    simp only [List.lookup]
+    split
+    · rename_i he
+      have : k = a := by simpa using he
+      simp [this]
+    · rename_i he
+      have : ¬ k = a := by simpa using he
+      simp [ih, this]
+
+/-- the names `impl FromStr for CompressionType` accepts are ASCII, so comparing the UTF-8 bytes of the stored text with
+the table's code points is comparing the strings (the assumption under `getPayloadCompressorVariant`; re-checked on every run) -/
+theorem compression_names_ascii : ∀ p ∈ compressionFromStr, ∀ c ∈ p.1, c < 128 := by decide
+
+/-- no RPMTAG_PAYLOADCOMPRESSOR entry at all → `CompressionType::None` (whose name is "none"), not an error -/
+theorem compressor_absent_is_none {h : Header} (hn : ∀ e ∈ h.entries, e.tag ≠ IndexTag.RPMTAG_PAYLOADCOMPRESSOR) :
+    getPayloadCompressorVariant h = .ok payloadCompressorDefault
+    ∧ Compression.toStr payloadCompressorDefault = [110, 111, 110, 101]
+    ∧ compressionVariants[payloadCompressorDefault]? = some "None" := by
+  refine ⟨?_, by decide, by decide⟩
+  unfold getPayloadCompressorVariant
+  have := getter_absent IndexData.asStr hn
+  unfold getString
+  rw [this]
+  rfl
+
+/-- a stored compressor text `s` gives a compression type exactly when `s` is one of the names in the source's
+`from_str` table, and then it is the variant that table pairs with the FIRST arm matching `s` (whose printed name is `s`
+again by C15's `compression_roundtrip`); every other text is `UnknownCompressorType` — never a default -/
+theorem compressor_known_iff {h : Header} {s : Bytes} (hs : getString h IndexTag.RPMTAG_PAYLOADCOMPRESSOR = .ok s) :
+    getPayloadCompressorVariant h = Compression.fromStr (s.map UInt8.toNat)
+    ∧ (∀ v, getPayloadCompressorVariant h = .ok v ↔ compressionFromStr.lookup (s.map UInt8.toNat) = some v)
+    ∧ (∀ v, getPayloadCompressorVariant h = .ok v → (s.map UInt8.toNat, v) ∈ compressionFromStr)
+    ∧ ((∃ v, getPayloadCompressorVariant h = .ok v) ↔ s.map UInt8.toNat ∈ compressionFromStr.map (·.1))
+    ∧ (s.map UInt8.toNat ∉ compressionFromStr.map (·.1) → getPayloadCompressorVariant h = .err "unknown-compressor") := by
+  have e : getPayloadCompressorVariant h = Compression.fromStr (s.map UInt8.toNat) := by
+    unfold getPayloadCompressorVariant; rw [hs]
+  have hiff : ∀ v, getPayloadCompressorVariant h = .ok v ↔ compressionFromStr.lookup (s.map UInt8.toNat) = some v := by
+    intro v
+    rw [e]; unfold Compression.fromStr
+    cases hl : compressionFromStr.lookup (s.map UInt8.toNat) with
+    | none => simp
+    | some w => simp
+  refine ⟨e, hiff, fun v hv => lookup_some_mem ((hiff v).mp hv), ?_, ?_⟩
+  · constructor
+    · intro ⟨v, hv⟩
+      exact List.mem_map.mpr ⟨_, lookup_some_mem ((hiff v).mp hv), rfl⟩
+    · intro hm
+      cases hl : compressionFromStr.lookup (s.map UInt8.toNat) with
+      | none => exact absurd hm (lookup_none_iff.mp hl)
+      | some w => exact ⟨w, (hiff w).mpr hl⟩
+  · intro hnm
+    rw [e]; unfold Compression.fromStr
+    rw [lookup_none_iff.mpr hnm]
+
+/-- `is_source_package` is true exactly when SOME entry carries RPMTAG_SOURCEPACKAGE — whatever its type, count or data -/
+theorem source_iff_tag_present (h : Header) :
+    entryIsPresent h IndexTag.RPMTAG_SOURCEPACKAGE = true ↔ ∃ e ∈ h.entries, e.tag = IndexTag.RPMTAG_SOURCEPACKAGE := by
+  simp [entryIsPresent, List.any_eq_true]
+
 /-! ### non-vacuity -/
 -- a 2-entry header (STRING "abc" at 0, INT32 [7] at 4): the getters return what is stored
 def sampleHdr : Bytes := [142, 173, 232, 1, 1, 2, 3, 4, 0, 0, 0, 2, 0, 0, 0, 8, 0, 0, 3, 232, 0, 0, 0, 6, 0, 0, 0, 0,
@@ -233,5 +347,20 @@ example : (parseHeader sampleHdr >>= fun p => getU32 p.1 1000) = .err "wrongtype
 example : (parseHeader sampleHdr >>= fun p => getString p.1 1002) = .err "notfound" := by decide +kernel
 example : filePathsFrom [[97], [98]] [1, 0] [[47], [47, 117, 47]] = .ok [[47, 117, 47, 97], [47, 98]] := by decide
 example : filePathsFrom [[97]] [2] [[47]] = .err "index" := by decide
+
+-- installed size: LONGSIZE wins; SIZE is used when LONGSIZE is absent or is not a non-empty INT64 array; neither → error
+def hSize (es : List Entry) : Header := ⟨es.length, 0, es, []⟩
+example : getInstalledSize (hSize [⟨IndexTag.RPMTAG_SIZE, .int32 [7], 0, 1⟩, ⟨IndexTag.RPMTAG_LONGSIZE, .int64 [5000000000], 0, 1⟩]) = .ok 5000000000 := by decide
+example : getInstalledSize (hSize [⟨IndexTag.RPMTAG_SIZE, .int32 [7], 0, 1⟩]) = .ok 7 := by decide
+example : getInstalledSize (hSize [⟨IndexTag.RPMTAG_LONGSIZE, .int32 [9], 0, 1⟩, ⟨IndexTag.RPMTAG_SIZE, .int32 [7], 0, 1⟩]) = .ok 7 := by decide
+example : getInstalledSize (hSize [⟨IndexTag.RPMTAG_LONGSIZE, .int64 [], 0, 0⟩]) = .err "notfound" := by decide
+-- compressor: "xz" is variant 3, "lzma" is no compressor name, no entry is `None`, an INT32 entry is a type error
+example : getPayloadCompressorVariant (hSize [⟨IndexTag.RPMTAG_PAYLOADCOMPRESSOR, .str [120, 122], 0, 1⟩]) = .ok 3 := by decide
+example : getPayloadCompressorVariant (hSize [⟨IndexTag.RPMTAG_PAYLOADCOMPRESSOR, .str [108, 122, 109, 97], 0, 1⟩]) = .err "unknown-compressor" := by decide
+example : getPayloadCompressorVariant (hSize []) = .ok 0 := by decide
+example : getPayloadCompressorVariant (hSize [⟨IndexTag.RPMTAG_PAYLOADCOMPRESSOR, .int32 [1], 0, 1⟩]) = .err "wrongtype" := by decide
+-- source package: presence of the tag alone decides
+example : entryIsPresent (hSize [⟨IndexTag.RPMTAG_SOURCEPACKAGE, .null, 0, 0⟩]) IndexTag.RPMTAG_SOURCEPACKAGE = true := by decide
+example : entryIsPresent (hSize [⟨IndexTag.RPMTAG_SIZE, .int32 [1], 0, 1⟩]) IndexTag.RPMTAG_SOURCEPACKAGE = false := by decide
 
 end RpmVerif.C05
